@@ -159,6 +159,7 @@ impl TraitHandler for HashEnumHandler {
         token_stream.extend(quote! {
             impl #impl_generics ::core::hash::Hash for #ident #ty_generics #where_clause {
                 #[inline]
+                #[allow(non_snake_case)]
                 fn hash<#hasher_ident: ::core::hash::Hasher>(&self, state: &mut #hasher_ident) {
                     #hash_token_stream
                 }
